@@ -242,7 +242,8 @@ theorem evalAttributes_out (P : Params) (s : Stack) (attrs a' : List Attr) (res 
           · intro kv hm
             simp only [List.mem_singleton] at hm
             subst hm
-            exact Or.inl ⟨hk, trimSpace x, by rw [hx, trimSpace_escape]⟩
+            obtain ⟨y, hy⟩ := trimSpace_escape x
+            exact Or.inl ⟨hk, y, by rw [hx, hy]⟩
           · exfalso
             have := hk.1.1
             simp only [contentKey] at this
